@@ -7,6 +7,8 @@ Local Open Scope N_scope.
 (* doubles travel as their 64-bit patterns, never as decimal text *)
 Inductive pval := VChar (b : N) | VInt (z : Z) | VStr (bs : bytes) | VStrB (bs : bytes) | VBytes (bs : bytes)
               | VDouble (bits : Z).
+(* a 64-bit pattern written as its 8 big-endian bytes (cheap to elaborate) *)
+Definition dbits (b : bytes) : Z := Z.of_N (be_dec b).
 Inductive gop := GChar | GInt | GInt32 | GUint32 | GStr | GBytes (n : Z) | GRemain | GDouble.
 Inductive gval := RChar (b : N) | RInt (z : Z) | RBytes (bs : bytes) | RDig (d : N * N * bytes * bytes)
                 | RDouble (bits : Z) | RErr (cls : N) | RPanic.
